@@ -151,6 +151,7 @@ static std::string run(const std::string& f, const Integer& n, const Integer& d)
     if (f == "dom.quo") { Z.quo(q, n, d); return S(q); }
     if (f == "dom.rem") { Z.rem(r, n, d); return S(r); }
     if (f == "dom.quoin") { q = n; Z.quoin(q, d); return S(q); }
+    if (f == "dom.quo@qb") { q = d; Z.quo(q, n, q); return S(q); }      // destination is the divisor object
     if (f == "dom.remin") { r = n; Z.remin(r, d); return S(r); }
     if (f == "dom.quoRem") { Z.quoRem(q, r, n, d); return S(q) + " " + S(r); }
     if (f == "dom.isDivisor") { return Z.isDivisor(n, d) ? "1" : "0"; }
@@ -170,6 +171,7 @@ int main()
             std::cout << "BAD-LINE\n"; continue;
         }
         std::cout << run(f, n, d) << "\n";
+        std::cout.flush();   // a crash (e.g. SIGFPE inside GMP) must not lose the lines already produced: the check locates the crashing case by counting them
     }
     return 0;
 }
